@@ -33,11 +33,26 @@ static void hook_start(tpt_p tpt) { tp_log(R_HOOK_START, (uint64_t)(uintptr_t)tp
 static atomic_uint g_stop_hooks;
 static void hook_stop(tpt_p tpt) { tp_log(R_HOOK_STOP, (uint64_t)(uintptr_t)tpt, tpt_get_num(tpt), 0, 0); atomic_fetch_add(&g_stop_hooks, 1); }
 
+/* stop_mask: threads whose pthread_create() is made to fail (ENOMEM), i.e. never started */
 static int
-pool_make(uint8_t nthreads, uint8_t skip_first, tp_p *ptp, uint64_t *tpt_ptr) {
+pool_make_ex(uint8_t nthreads, uint8_t skip_first, uint16_t stop_mask, const tp_plans *plans, tp_p *ptp, uint64_t *tpt_ptr) {
 	tp_settings_t s;
+	tp_plans cp;
 	int rc;
 	size_t i;
+	uint32_t k = 0;
+
+	memset(&cp, 0, sizeof(cp));
+	for (i = (skip_first ? 1 : 0); i < nthreads; i ++) {
+		k ++;
+		if (0 != (stop_mask & (1u << i)) && cp.nfaults < TP_FAULT_MAX) {
+			cp.faults[cp.nfaults].fn = F_PTHREAD_CREATE;
+			cp.faults[cp.nfaults].k = k;
+			cp.faults[cp.nfaults].err = ENOMEM;
+			cp.nfaults ++;
+		}
+	}
+	tp_harness_reset(&cp);
 
 	tp_settings_def(&s);
 	s.flags = 0;
@@ -47,7 +62,10 @@ pool_make(uint8_t nthreads, uint8_t skip_first, tp_p *ptp, uint64_t *tpt_ptr) {
 	rc = tp_create(&s, ptp);
 	if (0 != rc)
 		return (rc);
+	tp_harness_arm();
 	rc = tp_threads_create(*ptp, skip_first);
+	tp_harness_disarm();
+	tp_harness_reset(plans);
 	if (0 != rc)
 		return (rc);
 	for (i = 0; i < 17; i ++)
@@ -56,6 +74,11 @@ pool_make(uint8_t nthreads, uint8_t skip_first, tp_p *ptp, uint64_t *tpt_ptr) {
 		tpt_ptr[i] = (uint64_t)(uintptr_t)tp_thread_get(*ptp, i);
 	tpt_ptr[16] = (uint64_t)(uintptr_t)tp_thread_get_pvt(*ptp);
 	return (0);
+}
+
+static int
+pool_make(uint8_t nthreads, uint8_t skip_first, const tp_plans *plans, tp_p *ptp, uint64_t *tpt_ptr) {
+	return (pool_make_ex(nthreads, skip_first, 0, plans, ptp, tpt_ptr));
 }
 
 /* fence: one message through every running thread's own queue */
@@ -186,7 +209,7 @@ c05_run(const c05_scn *scn, c05_out *out) {
 	atomic_store(&g_fence, 0);
 	atomic_store(&g_stop_hooks, 0);
 
-	out->setup_rc = pool_make(scn->nthreads, scn->skip_first, &g5_tp, out->tpt_ptr);
+	out->setup_rc = pool_make(scn->nthreads, scn->skip_first, &scn->plans, &g5_tp, out->tpt_ptr);
 	if (0 != out->setup_rc)
 		return;
 
@@ -298,14 +321,13 @@ c10_program(size_t bi) {
 }
 static void *c10_ext_thread(void *arg) { c10_program((size_t)(uintptr_t)arg); return (NULL); }
 static void c10_pool_caller_cb(tpt_p tpt, void *udata) { (void)tpt; c10_program((size_t)(uintptr_t)udata); }
-static void c10_detach_cb(tpt_p tpt, void *udata) { (void)udata; tp_thread_dettach(tpt); }
 
 void
 c10_run(const c10_scn *scn, c10_out *out) {
 	pthread_t ext[C10_MAX_BCASTS];
 	int ext_used[C10_MAX_BCASTS];
 	size_t i;
-	uint32_t detached = 0, expect_done = 0, k;
+	uint32_t expect_done = 0, k;
 
 	memset(out, 0, sizeof(*out));
 	memset(ext_used, 0, sizeof(ext_used));
@@ -320,17 +342,9 @@ c10_run(const c10_scn *scn, c10_out *out) {
 		bslot[i].id = (uint32_t)i;
 		bslot[i].cb_usec = scn->b[i].cb_usec;
 	}
-	out->setup_rc = pool_make(scn->nthreads, scn->skip_first, &g10_tp, out->tpt_ptr);
+	out->setup_rc = pool_make_ex(scn->nthreads, scn->skip_first, scn->detach_mask, &scn->plans, &g10_tp, out->tpt_ptr);
 	if (0 != out->setup_rc)
 		return;
-	/* stop the threads of detach_mask and wait until they left their loops */
-	for (i = 0; i < scn->nthreads; i ++) {
-		if (0 == (scn->detach_mask & (1u << i)) || 0 == tpt_is_running(tp_thread_get(g10_tp, i)))
-			continue;
-		if (0 == tpt_msg_send(tp_thread_get(g10_tp, i), NULL, 0, c10_detach_cb, NULL))
-			detached ++;
-	}
-	out->hang |= tp_wait_until(&g_stop_hooks, detached, CEIL_MS);
 	for (i = 0; i < scn->nthreads; i ++) {
 		if (tpt_is_running(tp_thread_get(g10_tp, i)))
 			out->running_mask |= (uint16_t)(1u << i);
